@@ -76,7 +76,7 @@ def brief(case: dict) -> dict:
             return v
         k = v["k"]
         if k == "arr":
-            return f"{v['lib']}:{v['dt']}{tuple(v['shape'])}"
+            return f"{v['lib']}:{v['dt']}{tuple(v['shape'])}" + (f"~{v['how']}" if v.get('how') else '')
         if k == "tup":
             return "(" + ", ".join(vs(x) for x in v["elts"]) + ")"
         return k
